@@ -19,13 +19,19 @@ EXTENDS Naturals, Sequences, FiniteSets, TLC
 OsSp == {"linux", "windows", "darwin", "macos", "freebsd"}
 OsvSp == {"", "10.0.1", "10.0.2", "10.0.1.7"}
 \* architecture spellings with the variant spellings explored for each
-ArchKeys == {"amd64", "x86_64", "x86-64", "arm64", "aarch64", "arm", "armhf", "armel", "i386", "386", "riscv64"}
+ArchKeys == {"amd64", "x86_64", "x86-64", "arm64", "aarch64", "arm", "armhf", "armel", "i386", "386", "riscv64",
+             "ppc64le"}
 ArchVar(k) == CASE k \in {"amd64", "x86_64", "x86-64"} -> {"", "v1", "v2", "v3"}
                 [] k \in {"arm64", "aarch64"} -> {"", "v8", "8", "v9"}
                 [] k = "arm" -> {"", "v5", "v6", "v7", "v8", "5", "6", "7", "8"}
                 [] k = "armhf" -> {"", "v6"}
                 [] k = "armel" -> {"", "v7"}
                 [] k = "i386" -> {"", "v2"}
+                \* architectures without alias folding: a numbered variant next to the plain entry, and variant
+                \* families that are not numbered at all (the number does not identify the entry there)
+                [] k = "386" -> {"", "v1"}
+                [] k = "riscv64" -> {"", "rva20u64", "rva22u64"}
+                [] k = "ppc64le" -> {"", "power8", "power9"}
                 [] OTHER -> {""}
 
 \* ---- canonical form (what normalize() is documented to produce)
@@ -59,7 +65,8 @@ Canon(p) == [os |-> CanonOs(p.os), arch |-> CanonArch(p.ak), variant |-> CanonVa
 CanonStr(c) == c.os \o "/" \o c.arch \o (IF c.variant = "" THEN "" ELSE "/" \o c.variant)
 
 \* ---- can the host run the target (both canonical)
-ArchOk(h, t) == h.arch = t.arch /\ VarVer(h.variant) >= VarVer(t.variant)
+\* level 1 is the baseline of every architecture: a host without variant runs it
+ArchOk(h, t) == h.arch = t.arch /\ (VarVer(h.variant) >= VarVer(t.variant) \/ (h.variant = "" /\ VarVer(t.variant) = 1))
 Runnable(h, t) ==
   CASE h.os = "linux" -> t.os = "linux" /\ ArchOk(h, t)
     [] h.os = "windows" -> \/ t.os = "windows" /\ ArchOk(h, t) /\ (h.osver = "" \/ Build(h.osver) = Build(t.osver))
